@@ -182,7 +182,12 @@ var sameTargetOps = []Op{{"RegConn", "b3"}, {"RegConn", "b3x"}, {"DropConn", "b3
 // service (one more binding).
 var skewOps = []Op{{"RegConn", "b1"}, {"RegConn", "b4"}, {"DropConn", "b1"}, {"DropConn", "b4"}, {"RegLocal", ""}}
 
-var extOps = append(append([]Op{}, allOps...), Op{"RegConn", "b3x"}, Op{"DropConn", "b3x"}, Op{"RegConn", "b4"}, Op{"DropConn", "b4"})
+// revOps: the worker's own back-end bd (two services in one file) is
+// redeployed with other revisions between registrations: a refresh must pick
+// up a valid new revision and refuse an invalid one without side effects.
+var revOps = []Op{{"RegConn", "bd"}, {"DropConn", "bd"}, {"Rev", "2"}, {"Rev", "1"}, {"Rev", "bad"}}
+
+var extOps = append(append(append([]Op{}, revOps...), allOps...), Op{"RegConn", "b3x"}, Op{"DropConn", "b3x"}, Op{"RegConn", "b4"}, Op{"DropConn", "b4"})
 
 func randomHistory(rng *rand.Rand, minLen, maxLen int) History {
 	n := minLen + rng.Intn(maxLen-minLen+1)
@@ -271,6 +276,31 @@ func RunC11(r *mon.Run) {
 		total += len(hs)
 		outs := g.runAll(hs, Draws)
 		for i, h := range hs {
+			g.account(h, outs[i])
+			g.attribute(h, outs[i], Draws)
+		}
+	}
+	for L := 2; L <= extLen+1; L++ {
+		hs := enumerate(revOps, L)
+		// only histories that register bd at least once after a switch
+		var keep []History
+		for _, h := range hs {
+			sw := false
+			ok := false
+			for _, o := range h {
+				if o.K == "Rev" {
+					sw = true
+				} else if o.K == "RegConn" && sw {
+					ok = true
+				}
+			}
+			if ok {
+				keep = append(keep, h)
+			}
+		}
+		total += len(keep)
+		outs := g.runAll(keep, Draws)
+		for i, h := range keep {
 			g.account(h, outs[i])
 			g.attribute(h, outs[i], Draws)
 		}
